@@ -71,7 +71,17 @@ func genStatement(t *rapid.T, dialect, label string) string {
 		o.MaxDepth = 1
 		inner := cleanSelect(sqlgen.Select(t, o))
 		tb := rapid.SampledFrom(boosterTables).Draw(t, label+".bt")
-		switch rapid.IntRange(0, 7).Draw(t, label+".shape") {
+		shapes := 7
+		if dialect == sqlgen.MySQL {
+			shapes = 10 // plus the forms in which part of the statement stands in a MySQL executable comment
+		}
+		switch rapid.IntRange(0, shapes).Draw(t, label+".shape") {
+		case 8:
+			return "select a from " + tb + " /*! union " + inner + " */"
+		case 9:
+			return "select a from " + tb + " /*!50000 union " + inner + " */ "
+		case 10:
+			return "select a /*! , (" + inner + ") */ from " + tb
 		case 0:
 			return "select * from (" + inner + ") as sub1"
 		case 1:
